@@ -26,6 +26,11 @@ func throughMarshal(src []byte, tie bool) {
 	s := string(src)
 	current.Store("marshal " + hx(src))
 	defer current.Store("")
+	defer func() {
+		if r := recover(); r != nil {
+			S.fail("through-Marshal-panic", "src", hx(src), "panic", fmt.Sprint(r), "backend", *label)
+		}
+	}()
 	want := append(append([]byte{'"'}, refQuoteBody(src, false)...), '"')
 	got, err := sonic.Marshal(s)
 	S.count("sonic.Marshal(string)", src)
@@ -94,6 +99,11 @@ func throughMarshal(src []byte, tie bool) {
 func throughUnmarshal(body []byte, tie bool) {
 	current.Store("unmarshal " + hx(body))
 	defer current.Store("")
+	defer func() {
+		if r := recover(); r != nil {
+			S.fail("through-Unmarshal-panic", "body", hx(body), "panic", fmt.Sprint(r), "backend", *label)
+		}
+	}()
 	doc := append(append([]byte{'"'}, body...), '"')
 	want, ok := refUnquote(body, true)
 	var got string
@@ -353,4 +363,5 @@ func genThrough(r *rng.R, thorough bool) {
 	}
 	_ = strings.Repeat
 	genDouble(r, thorough)
+	genHistory(r.Fork(7), thorough)
 }
